@@ -8,7 +8,7 @@ import typing as T
 from ..core import Module, Repo, Undecided, norm, short, attr_chain, walk_no_nested
 from ..report import RuleCtx
 from ..cfg import CFG
-from .c01_sym import SymPath, sym_paths, is_call, show, subterms, private_helpers
+from .c01_sym import SymPath, sym_paths, is_call, show, subterms, private_helpers, module_helpers
 from . import c01_parser
 
 IB = 'mesonbuild/interpreterbase/interpreterbase.py'
@@ -22,8 +22,10 @@ EVAL_VOCABULARY = OPAQUE_METHODS | {'set_variable', 'get_variable', 'function_ca
 
 def evaluator_helpers(mod: Module) -> T.Dict[str, ast.FunctionDef]:
     """Methods of InterpreterBase outside the evaluator vocabulary (evaluate_*, variable table, holderify): candidates for extracted blocks."""
-    return {s.name: s for s in mod.cls('InterpreterBase').body if isinstance(s, ast.FunctionDef) and not s.name.startswith('evaluate_') and not s.name.startswith('__')
-            and s.name not in EVAL_VOCABULARY and not s.decorator_list}
+    out = {s.name: s for s in mod.cls('InterpreterBase').body if isinstance(s, ast.FunctionDef) and not s.name.startswith('evaluate_') and not s.name.startswith('__')
+           and s.name not in EVAL_VOCABULARY and all(norm(d) == 'staticmethod' for d in s.decorator_list)}
+    out.update(module_helpers(mod, stop={'_unholder'}))      # a block moved out to a private module-level function (kind E2)
+    return out
 
 
 def rename(t: T.Any, param: str, to: str = 'NODE') -> T.Any:
